@@ -48,6 +48,16 @@ def _common(c):
     c.raises("stopped-buffered-error-or-cancelled", "BaseException")
     # after `await self._subscriptions.wait_for_assignment()` the new assignment is in place
     c.hook("after-await", "self._subscriptions.wait_for_assignment", [("set", "$atomic_waited", "True")])
+    c.replay_fn = lambda model, ob=None: {"script": _HANDOUT_SCRIPT}
+
+
+_HANDOUT_SCRIPT = '''
+import sys
+sys.path.insert(0, "/verif")
+from specs import handout_replay
+bad = handout_replay.sweep()
+VIOLATED = bool(bad); DETAIL = repr(bad)
+'''
 
 
 @contract(MOD + ":Fetcher.next_record", ["C05", "C03", "C19"])
